@@ -36,6 +36,10 @@ PLAN = dict(
          + [dict(J("c13.sweep", ["avx2"], "race", shards=(8, 16), floor=2000), thorough_only=True),
             dict(J("c13.built", ["avx2"], "race", shards=(4, 4), floor=50), thorough_only=True),
             dict(J("c13.modes", ["avx2"], "race", shards=(1, 2), floor=80), thorough_only=True)],
+    # thorough tier: coverage-guided fuzzing (Go native fuzzing) of every catalogued entry point from its valid artefacts,
+    # a fixed number of executions per entry point; failing inputs are confirmed by the child (workload c13.fuzzreplay)
+    fuzz=dict(pkg="./fuzz/c13", func="FuzzC13", execs=(0, 40000), replay_wl="c13.fuzzreplay", variant="asm", parallel=4,
+              thorough_only=True, wall=1800),
     exhaustive_note="for the seed artefacts of the run, the truncation class (every proper prefix), the four single-byte "
                     "substitution classes (every position) and the DER-edit class (every element x every edit) are enumerated "
                     "completely for every catalogued (entry point, artefact) pair; everything else is sampled",
